@@ -55,6 +55,14 @@ def check_case(ctx, c, m, corr="corr:write+read"):
         ctx.notes["model_unspecified"] = ctx.notes.get("model_unspecified", 0) + 1
         return
     if t != m:
+        # the model's read-back value is the datum's normal form by theorem (py_of (elab datum)): a different VALUE coming back
+        # from the implementation on a conforming datum is a concrete failure of the statement, not only of the tie
+        tv, mv = t.split(";R:", 1)[-1] if ";R:" in t else None, (m or "").split(";R:", 1)[-1] if ";R:" in (m or "") else None
+        if holds and tv is not None and mv is not None and tv != mv:
+            ctx.violation(corr, c.to_json(), impl=t[:2000], model=(m or "")[:2000], signature="C01:value-read-back-is-not-the-normal-form-of-the-datum",
+                          found_input=True, detail="the value read back differs from py_of (elab datum), the normal form the round-trip theorem fixes "
+                                                   "(the independent predicate cannot tell: it does not know the union branch rule)")
+            return
         ctx.violation(corr, c.to_json(), impl=t[:2000], model=(m or "")[:2000], signature="C01:model-differs",
                       found_input=False, detail="the implementation differs from the model; the round trip itself holds on this case"
                       if holds else "the implementation differs from the model on a case outside the statement's hypothesis")
